@@ -188,6 +188,10 @@ func rulesC02(p *Prog, r *Report) {
 	r.Rule("M5", "necessary", 3, "suffix arithmetic: every strip of a tested suffix removes exactly its length; an '-or-later' license token sets the plus flag")
 	r.Rule("M6", "necessary", 2, "plus cells: with exactly one '+', the in-range test is applied with the non-plus term first; with two, only the family is compared; with none, versions must be equal")
 
+	// the matcher is what decides a single term against a single allowed entry: the verdict consults the
+	// allowed entries through the two pair matchers only (no side table, fast path or index in between)
+	ruleX4(p, r, "X4")
+
 	lac := p.Func(p.ExpPkg, "(*nodePair).licensesAreCompatible")
 	lrc := p.Func(p.ExpPkg, "(*nodePair).licenseRefsAreCompatible")
 	exc := p.Func(p.ExpPkg, "(*nodePair).exceptionsAreCompatible")
